@@ -162,6 +162,7 @@ def conclude(pid, spec, results, tier, seed, wall, kani=(), extra_viol=()):
         violations.append((r0, d, {'fn': fn, 'kind': 'sanity-run', 'clause': None, 'expr': '', 'witness': w}))
     # --- Kani steps
     kani_obl = []
+    bounded_list = []
     kani_viol = []
     for k in kani:
         js = k.get('json') or {}
@@ -170,6 +171,14 @@ def conclude(pid, spec, results, tier, seed, wall, kani=(), extra_viol=()):
             undecided.append('kani script %s: tool problem / anchor lost: %s' % (k['script'], k['stdout'][-300:]))
             continue
         for h, r in hs.items():
+            if k.get('bounded'):
+                # bounded stand-in for a trusted primitive: reported, never counted as a discharged obligation
+                bounded_list.append('%s::%s: %s' % (k['script'], h, 'passed' if r.get('ok') else 'FAILED' if r.get('failed') else 'did not finish'))
+                if r.get('failed'):
+                    kani_viol.append((k, h, r))
+                elif not r.get('ok'):
+                    undecided.append('bounded kani harness %s did not finish' % h)
+                continue
             name = '%s::%s [kani, loop-free, full domain]' % (k['script'], h)
             kani_obl.append(name)
             checker_cmds.append(r.get('cmd', 'cargo kani --harness ' + h))
@@ -233,7 +242,7 @@ def conclude(pid, spec, results, tier, seed, wall, kani=(), extra_viol=()):
             'units': [{'unit': r.unit, 'mode': r.mode, 'verified_fns': r.verified, 'errors': r.errors,
                        'wall_s': round(r.wall_s, 1)} for r in results],
             'extraction_rule_applications': rule_counts,
-            'bounded': [],
+            'bounded': bounded_list,
             'vacuity_canaries_failed_as_required': canaries_total,
             'stability_probes': stability,
             'known_findings_hit': [k['id'] + ': ' + k.get('what', '') for k in known_hit.values()],
